@@ -844,6 +844,12 @@ func genC19(g *Gen) error {
 		}
 		g.P("def src_%s : String := %s", strings.ReplaceAll(f, ".", "_"), leanStr(g.Src(fd.Body)))
 	}
+	// serveMetrics: the per-module authorization error is skipped, not turned into a denial
+	if fd := p.funcs["Handler.serveMetrics"]; fd != nil {
+		g.P("def src_serveMetrics : String := %s", leanStr(g.Src(fd.Body)))
+	} else {
+		g.P("def src_serveMetrics : String := \"<missing>\"")
+	}
 	// Privilege constants of the local influxql package (iota block)
 	af, err := g.Parse("lib/util/lifted/influx/influxql/ast.go")
 	if err != nil {
